@@ -87,6 +87,8 @@ impl<T: Sc> Report<T> {
 pub trait StatsObj<T: Sc>: Send {
     fn cov(&self) -> DMatrix<T>;
     fn corr(&self) -> DMatrix<T>;
+    /// the deprecated accessor `correlation_matrix()`
+    fn corr_deprecated(&self) -> DMatrix<T>;
     fn chi2(&self) -> T;
     fn rse(&self) -> T;
     fn wres(&self) -> Vec<T>;
@@ -102,6 +104,10 @@ impl<T: Sc, M: SeparableNonlinearModel<ScalarType = T>> StatsObj<T> for FitStati
     }
     fn corr(&self) -> DMatrix<T> {
         self.calculate_correlation_matrix()
+    }
+    #[allow(deprecated)]
+    fn corr_deprecated(&self) -> DMatrix<T> {
+        self.correlation_matrix()
     }
     fn chi2(&self) -> T {
         self.reduced_chi2()
@@ -345,7 +351,8 @@ macro_rules! impl_prob {
                 $par
             }
             fn fit(self: Box<Self>, lm: &LevenbergMarquardt<T>) -> FitOut<T> {
-                let solver = LevMarSolver::<M, $mrhs>::with_solver(*lm);
+                // the default configuration goes through `LevMarSolver::default()`, the way users write it
+                let solver = if *lm == LevenbergMarquardt::new() { LevMarSolver::<M, $mrhs>::default() } else { LevMarSolver::<M, $mrhs>::with_solver(*lm) };
                 let res = solver.fit(*self);
                 impl_prob!(@fitout $mrhs, res)
             }
@@ -369,7 +376,7 @@ macro_rules! impl_prob {
     (@fitout false, $res:ident) => { fitout_srhs($res, None) };
     (@fitout true, $res:ident) => { fitout_mrhs($res) };
     (@fitstats false, $self:ident, $lm:ident, $M:ident) => {{
-        let solver = LevMarSolver::<$M, false>::with_solver(*$lm);
+        let solver = if *$lm == LevenbergMarquardt::new() { LevMarSolver::<$M, false>::default() } else { LevMarSolver::<$M, false>::with_solver(*$lm) };
         match solver.fit_with_statistics(*$self) {
             Ok((fr, st)) => fitout_srhs(Ok(fr), Some(Box::new(st))),
             Err(fr) => fitout_srhs(Err(fr), None),
